@@ -271,7 +271,7 @@ def execute(case):
             for f in srcs:
                 cur = core.read_rel(sc.root, f)
                 bk = core.read_rel(sc.root, _stem(f) + ".bk")
-                suffix = "|stem-collision" if f in collide else "|respelled-twice" if f in respelled else "|own-name-is-scratch-name" if f in ownname else ""
+                suffix = "|stem-collision" if f in collide else ("|respelled-twice" + ("|unresolvable-directory" if tag == "realpath-errno" else "")) if f in respelled else "|own-name-is-scratch-name" if f in ownname else ""
                 if f in linked and linked[f] in srcs:
                     # a link to another module file of the crate: its .bk is the moved link, which still points to the
                     # (rewritten) target; the bytes are safe if the target's own backup holds them
@@ -287,12 +287,15 @@ def execute(case):
             for p in diff:
                 if os.path.normpath(p) not in allowed:
                     v.add("C20:foreign-path-touched", "%s: %s changed but is not F/F.bk/F.tmp of a rewritten file; %s" % (tag, p, det), path=p)
+            if success_expected == "if-exit-0" and res.exit != 0:
+                v.probe("realpath-error-fails-the-run")
+                return
             if success_expected:
                 if res.exit != 0:
                     v.add("C20:unexpected-failure" + ("|own-name-is-scratch-name" if ownname else ""), "%s: exit %s, stderr=%r" % (det, res.status(), core.text_of(res.stderr)[:200]))
                     return  # what the files look like after a failure is judged by the invariants above
                 for f in R:
-                    suffix = "|stem-collision" if f in collide else "|respelled-twice" if f in respelled else "|own-name-is-scratch-name" if f in ownname else ""
+                    suffix = "|stem-collision" if f in collide else ("|respelled-twice" + ("|unresolvable-directory" if tag == "realpath-errno" else "")) if f in respelled else "|own-name-is-scratch-name" if f in ownname else ""
                     if core.read_rel(sc.root, f) != fmt[f]:
                         v.add("C20:success-file-not-formatted" + suffix, "%s: %s" % (det, f), file=f)
                     if core.read_rel(sc.root, _stem(f) + ".bk") != orig[f] and not (
@@ -343,11 +346,21 @@ def execute(case):
             elif e.op == "rename":
                 for en in RENAME_ERRNOS:
                     plans.append(("errno", ["* mut %d * errno %d" % (k, en)], False))
+        # no directory can be resolved to its real path (EACCES on an ancestor, a removed working directory): the run may
+        # fail, and when it does not, every rewritten file still has its own backup
+        # (the configuration is named with --config-path: the per-directory look-up needs the real path of the directory)
+        rdirs = sorted({os.path.normpath(os.path.dirname(f) or ".") for f in R})
+        plans.append(("realpath-errno", ["* realpath 0 %s errno %d" % (d, [13, 2, 36][case["hashseed"] % 3]) for d in rdirs], "if-exit-0"))
         ncase = 0
         for kind, plan, success in plans:
             sc.fresh_world(world)
+            inv = _inv(case, backup=True, plan=plan)
+            if kind == "realpath-errno":
+                with open(os.path.join(sc.root, "zz_empty.toml"), "w"):
+                    pass
+                inv["argv"] = ["--config-path", "$ROOT/zz_empty.toml"] + inv["argv"]
             snap0 = core.snapshot(sc.root)
-            r = core.run_inv(sc, _inv(case, backup=True, plan=plan))
+            r = core.run_inv(sc, inv)
             v.planned(kind)
             fired = any(e.fault or e.op == "crash" for e in r.events) or any("SHORT" in e.raw for e in r.events)
             v.account(r, nontrivial=fired)
